@@ -306,6 +306,11 @@ def _c14_extra(rep, units, info):
     return dis, fails
 
 
+def _c14_paramshadow(rep, tier):
+    from . import c20tier
+    return c20tier.run_paramshadow(rep, tier)
+
+
 register("C14",
          "unit tier: real disambiguate / typeVariableName / export / unexport on names and taken-sets drawn from an "
          "adversarial pool (err, cleanup, keywords and predeclared names in all capitalisations, numeric suffixes); "
@@ -316,7 +321,8 @@ register("C14",
          [stream_part("C14", lambda tier: [("names", "names", ["-seed", seed(), "-n", 20000 if tier == "quick" else 300000])],
                       nontrivial=lambda case, im: len(case.get("raw", [])) >= 3),
           e2e_part("C14", [("n", {"adversarial": True, "p_err": 0.5, "p_cleanup": 0.5})], _pairs_plan, set(),
-                   lambda ur: (ur.impl or "").startswith("ok"), n_quick=100, n_thorough=1000, extra=_c14_extra)])
+                   lambda ur: (ur.impl or "").startswith("ok"), n_quick=100, n_thorough=1000, extra=_c14_extra),
+          _c14_paramshadow])
 
 
 def _c10_part(rep, tier):
@@ -564,6 +570,20 @@ register("C19",
           _c19_part])
 
 
+def _c01_internal(rep, tier):
+    from . import c01tier
+    return c01tier.run_internal(rep, tier)
+
+
+def _c01_spellings(rep, tier):
+    # unusual spellings that Wire accepts must still yield a package that compiles (and keeps the methods the template had)
+    from . import c20tier
+    dis, fails = c20tier.run_c20(rep, tier, set(), select=("struct/", "structlit/", "shape", "fieldsof/", "result/", "value/", "ivalue",
+                                                           "paramshadow/", "setvar/", "build/", "sets/"),
+                                 cmds=("gen",), build=True)
+    return dis, [f for f in fails if f.get("stream") == "c20-build"]
+
+
 register("C01",
          "generated multi-package programs (1-3 injectors per package, nested sets across packages, struct/value/field/binding "
          "providers, variadics, renamed and same-named packages): every accepted package is compiled (go build) and every injector is "
@@ -575,7 +595,8 @@ register("C01",
                    lambda ur: (ur.impl or "").startswith("ok"), n_quick=150, n_thorough=1500),
           e2e_part("C01", [("u", {"plant": ["unexported"], "plant_p": 1.0, "units": [1, 2], "max_structs": 8})],
                    lambda ur: [] if _planted(ur) else _pairs_plan(ur), {"C01"}, _planted,
-                   n_quick=120, n_thorough=800, build=True, runit=False, extra=_planted_oracle({"unexported": "unexported:"}))])
+                   n_quick=120, n_thorough=800, build=True, runit=False, extra=_planted_oracle({"unexported": "unexported:"})),
+          _c01_spellings, _c01_internal])
 
 
 def _wellformed_extra(rep, units, info):
